@@ -1,8 +1,372 @@
-//! Minimisation of a failing case (placeholder; the real one follows).
+//! Minimisation of a failing case: shrink builds, files, top-level items, lines, schedules and
+//! environment while the *same violation class* persists. Every candidate is re-executed
+//! through the real code; the best case so far is written out after every successful step, so
+//! a minimiser that is stopped still leaves a valid (less small) replay file.
+
+use std::time::{Duration, Instant};
+
+use crate::case::{Case, Verdict};
+use crate::replay::ReplayFile;
+use crate::run::{Blob, Entry, Node};
+use crate::sched::OrderSpec;
+
+struct Ctx {
+    class: String,
+    in_child: bool,
+    evals: u32,
+    max_evals: u32,
+    deadline: Instant,
+    scratch: crate::run::Scratch,
+    out_path: String,
+    template: ReplayFile,
+    last_detail: String,
+}
+
+impl Ctx {
+    fn exhausted(&self) -> bool {
+        self.evals >= self.max_evals || Instant::now() > self.deadline
+    }
+
+    /// Does `case` still produce a violation of the recorded class?
+    fn fails(&mut self, case: &Case) -> bool {
+        if self.exhausted() {
+            return false;
+        }
+        self.evals += 1;
+        if self.in_child {
+            let tmp = format!("/dev/shm/pyxis-sim.{}/candidate.json", std::process::id());
+            let mut f = self.template.clone();
+            f.case = case.clone();
+            if std::fs::write(&tmp, serde_json::to_string(&f).unwrap()).is_err() {
+                return false;
+            }
+            let (code, out) =
+                crate::supervisor::run_child(&["replay-inner", &tmp], Duration::from_secs(4));
+            let class = match code {
+                None => "killed:timeout".to_string(),
+                Some(0) => out
+                    .lines()
+                    .find_map(|l| l.strip_prefix("RESULT violation "))
+                    .unwrap_or("")
+                    .to_string(),
+                Some(2) => String::new(),
+                Some(_) => "killed:abort".to_string(),
+            };
+            class == self.class
+        } else {
+            let (verdict, _) = crate::worker::run_case(&mut self.scratch, case, 0);
+            match verdict {
+                Verdict::Violation { class, detail } if class == self.class => {
+                    self.last_detail = detail;
+                    true
+                }
+                _ => false,
+            }
+        }
+    }
+
+    fn save(&mut self, case: &Case) {
+        let mut f = self.template.clone();
+        f.case = case.clone();
+        f.minimised = true;
+        if !self.last_detail.is_empty() {
+            f.detail = self.last_detail.clone();
+        }
+        f.signature = crate::findings::signature(case, &f.class, &f.detail);
+        let _ = std::fs::write(&self.out_path, serde_json::to_string_pretty(&f).unwrap());
+    }
+}
+
+/// Splits pyxis source into top-level chunks (each ends at a `;` or `}` at nesting depth 0),
+/// aware of string and raw string literals and of comments.
+pub fn top_level_chunks(text: &str) -> Vec<String> {
+    let b = text.as_bytes();
+    let mut chunks = vec![];
+    let mut start = 0;
+    let mut depth = 0i32;
+    let mut i = 0;
+    while i < b.len() {
+        let c = b[i];
+        if c == b'/' && i + 1 < b.len() && b[i + 1] == b'/' {
+            while i < b.len() && b[i] != b'\n' {
+                i += 1;
+            }
+            continue;
+        }
+        if c == b'r' && i + 1 < b.len() && (b[i + 1] == b'#' || b[i + 1] == b'"') {
+            // raw string r#"…"#
+            let mut j = i + 1;
+            let mut hashes = 0;
+            while j < b.len() && b[j] == b'#' {
+                hashes += 1;
+                j += 1;
+            }
+            if j < b.len() && b[j] == b'"' {
+                j += 1;
+                'outer: while j < b.len() {
+                    if b[j] == b'"' {
+                        let mut k = 0;
+                        while k < hashes && j + 1 + k < b.len() && b[j + 1 + k] == b'#' {
+                            k += 1;
+                        }
+                        if k == hashes {
+                            j += 1 + hashes;
+                            break 'outer;
+                        }
+                    }
+                    j += 1;
+                }
+                i = j;
+                continue;
+            }
+        }
+        if c == b'"' {
+            i += 1;
+            while i < b.len() && b[i] != b'"' {
+                if b[i] == b'\\' {
+                    i += 1;
+                }
+                i += 1;
+            }
+            i += 1;
+            continue;
+        }
+        match c {
+            b'{' | b'(' | b'[' => depth += 1,
+            b'}' | b')' | b']' => {
+                depth -= 1;
+                if depth <= 0 && c == b'}' {
+                    depth = 0;
+                    let end = (i + 1).min(b.len());
+                    chunks.push(text[start..end].to_string());
+                    start = end;
+                }
+            }
+            b';' if depth <= 0 => {
+                let end = i + 1;
+                chunks.push(text[start..end].to_string());
+                start = end;
+            }
+            _ => {}
+        }
+        i += 1;
+    }
+    if start < b.len() && !text[start..].trim().is_empty() {
+        chunks.push(text[start..].to_string());
+    }
+    chunks
+}
+
+fn file_text(case: &Case, w: usize, n: usize) -> Option<String> {
+    match &case.worlds[w].input[n] {
+        Node::File { path, content } if path.ends_with(".pyxis") => {
+            String::from_utf8(content.0.clone()).ok()
+        }
+        _ => None,
+    }
+}
+
+fn set_file_text(case: &mut Case, w: usize, n: usize, text: String) {
+    if let Node::File { content, .. } = &mut case.worlds[w].input[n] {
+        *content = Blob(text.into_bytes());
+    }
+}
+
+/// Greedy one-at-a-time removal over a list of pieces; `render` rebuilds the candidate.
+fn reduce_pieces(
+    ctx: &mut Ctx,
+    best: &mut Case,
+    pieces: &mut Vec<String>,
+    render: &dyn Fn(&Case, &[String]) -> Case,
+) -> bool {
+    let mut changed = false;
+    // Try halves first, then single pieces.
+    let mut size = pieces.len() / 2;
+    while size >= 1 && !ctx.exhausted() {
+        let mut i = 0;
+        while i < pieces.len() && !ctx.exhausted() {
+            let end = (i + size).min(pieces.len());
+            let mut candidate = pieces.clone();
+            candidate.drain(i..end);
+            let case = render(best, &candidate);
+            if ctx.fails(&case) {
+                *pieces = candidate;
+                *best = case;
+                ctx.save(best);
+                changed = true;
+            } else {
+                i += size;
+            }
+        }
+        size /= 2;
+    }
+    changed
+}
+
+fn minimise(ctx: &mut Ctx, mut best: Case) -> Case {
+    // 0. Sanity: the case must fail to begin with.
+    if !ctx.fails(&best) {
+        return best;
+    }
+    ctx.save(&best);
+
+    for _round in 0..4 {
+        let before = serde_json::to_string(&best).unwrap().len();
+
+        // 1. Builds: drop as many as possible, then no repetition.
+        let mut i = 0;
+        while i < best.builds.len() && best.builds.len() > 1 && !ctx.exhausted() {
+            let mut c = best.clone();
+            c.builds.remove(i);
+            if ctx.fails(&c) {
+                best = c;
+                ctx.save(&best);
+            } else {
+                i += 1;
+            }
+        }
+        for i in 0..best.builds.len() {
+            if best.builds[i].repeat > 1 {
+                let mut c = best.clone();
+                c.builds[i].repeat = 1;
+                if ctx.fails(&c) {
+                    best = c;
+                    ctx.save(&best);
+                }
+            }
+        }
+
+        // 2. Whole input nodes.
+        for w in 0..best.worlds.len() {
+            let mut n = 0;
+            while n < best.worlds[w].input.len() && !ctx.exhausted() {
+                let mut c = best.clone();
+                c.worlds[w].input.remove(n);
+                if ctx.fails(&c) {
+                    best = c;
+                    ctx.save(&best);
+                } else {
+                    n += 1;
+                }
+            }
+        }
+
+        // 3. Top-level items inside every file, then lines.
+        for w in 0..best.worlds.len() {
+            for n in 0..best.worlds[w].input.len() {
+                let Some(text) = file_text(&best, w, n) else {
+                    continue;
+                };
+                let mut chunks = top_level_chunks(&text);
+                reduce_pieces(ctx, &mut best, &mut chunks, &|base, pieces| {
+                    let mut c = base.clone();
+                    set_file_text(&mut c, w, n, pieces.concat());
+                    c
+                });
+                let Some(text) = file_text(&best, w, n) else {
+                    continue;
+                };
+                let mut lines: Vec<String> = text.lines().map(|l| format!("{l}\n")).collect();
+                reduce_pieces(ctx, &mut best, &mut lines, &|base, pieces| {
+                    let mut c = base.clone();
+                    set_file_text(&mut c, w, n, pieces.concat());
+                    c
+                });
+            }
+        }
+
+        // 4. Environment and pre-existing output state.
+        for w in 0..best.worlds.len() {
+            let mut c = best.clone();
+            c.worlds[w].pre_out.clear();
+            c.worlds[w].out_exists = true;
+            c.worlds[w].out_is_file = false;
+            c.worlds[w].in_arg_suffix.clear();
+            if c != best && ctx.fails(&c) {
+                best = c;
+                ctx.save(&best);
+            }
+            let mut c = best.clone();
+            c.worlds[w].in_dir = "in".into();
+            if c != best && ctx.fails(&c) {
+                best = c;
+                ctx.save(&best);
+            }
+        }
+
+        // 5. Schedules: canonical wherever the violation persists; simplest entry point.
+        for i in 0..best.builds.len() {
+            for which in 0..4 {
+                let mut c = best.clone();
+                match which {
+                    0 => c.builds[i].sched.definitions = OrderSpec::Canonical,
+                    1 => c.builds[i].sched.module_write = OrderSpec::Canonical,
+                    2 => c.builds[i].sched.unresolved = OrderSpec::Canonical,
+                    _ => c.builds[i].entry = Entry::LibBuild,
+                }
+                if c != best && ctx.fails(&c) {
+                    best = c;
+                    ctx.save(&best);
+                }
+            }
+            // A hashed/dynamic order that must stay: try the plain reverse order instead.
+            for which in 0..2 {
+                let mut c = best.clone();
+                match which {
+                    0 => c.builds[i].sched.unresolved = OrderSpec::Reverse,
+                    _ => c.builds[i].sched.module_write = OrderSpec::Reverse,
+                }
+                if c != best && ctx.fails(&c) {
+                    best = c;
+                    ctx.save(&best);
+                }
+            }
+        }
+
+        let after = serde_json::to_string(&best).unwrap().len();
+        if after >= before || ctx.exhausted() {
+            break;
+        }
+    }
+    best
+}
 
 pub fn minimise_cmd(input: &str, output: &str) -> i32 {
-    match std::fs::copy(input, output) {
-        Ok(_) => 0,
-        Err(_) => 2,
+    crate::worker::limit_address_space(4 << 30);
+    crate::run::install_panic_hook();
+    let file = match crate::replay::load(input) {
+        Ok(f) => f,
+        Err(e) => {
+            eprintln!("harness error: {e}");
+            return 2;
+        }
+    };
+    let in_child = file.class.starts_with("killed");
+    let mut ctx = Ctx {
+        class: file.class.clone(),
+        in_child,
+        evals: 0,
+        max_evals: if in_child { 400 } else { 3000 },
+        deadline: Instant::now() + Duration::from_secs(if in_child { 150 } else { 60 }),
+        scratch: crate::run::Scratch::new(),
+        out_path: output.to_string(),
+        template: file.clone(),
+        last_detail: String::new(),
+    };
+    let original_size = serde_json::to_string(&file.case).unwrap().len();
+    let best = minimise(&mut ctx, file.case.clone());
+    if !std::path::Path::new(output).exists() {
+        // The case did not fail when re-run here: keep the original, the caller's replay step
+        // decides what that means.
+        let _ = std::fs::copy(input, output);
+        println!("minimise: case did not reproduce in the minimiser; original kept");
+        return 0;
     }
+    println!(
+        "minimise: {} evaluations, {} -> {} bytes of case",
+        ctx.evals,
+        original_size,
+        serde_json::to_string(&best).unwrap().len()
+    );
+    0
 }
